@@ -1,0 +1,26 @@
+//go:build verif
+
+package io
+
+// Verification hooks (build tag "verif"). They observe, never change behaviour.
+
+const (
+	VerifOpRead   = 0
+	VerifOpUnread = 1
+	VerifOpReset  = 2
+)
+
+// VerifScannerHook, when set, is called after every Read, Unread and Reset of a
+// StringScanner with the scanner's content and cursor state.
+var VerifScannerHook func(op int, content []rune, position int, line int, column int)
+
+func (c *StringScanner) verifHook(op int) {
+	if h := VerifScannerHook; h != nil {
+		h(op, c.content, c.position, c.line, c.column)
+	}
+}
+
+// VerifPosition exposes the cursor position and the content length.
+func (c *StringScanner) VerifPosition() (position int, length int) {
+	return c.position, len(c.content)
+}
